@@ -73,7 +73,8 @@ CLAIMED.update({
               "sample or the mean of the two middle ones, /s, mean = total/(n*s), all zero for n = 0, no overflow and no division by zero, and by a lemma "
               "fastest <= median <= slowest, fastest <= mean <= slowest; under contract on the way: util::slice_middle (exactly the one or two middle elements "
               "for every length), SampleCollection::iter_count / total_duration, <FineDuration as Div<I>>::div, FineDuration::clamp_to / is_zero, "
-              "SampleCollection::clear, ThreadAllocTallyMap::add_to_total. Kani (BOUNDED: 0, 1, 2 samples quick; 2-3 thorough) checks the compiled compute_stats "
+              "SampleCollection::clear, ThreadAllocTallyMap::add_to_total, and the duration stored for a sample (closure sample_duration_sub_overhead outlined, "
+              "TimedOverhead::total_overhead: never zero, never more than the reading, the reading itself when the overheads are zero). Kani (BOUNDED: 0, 1, 2 samples quick; 2-3 thorough) checks the compiled compute_stats "
               "over symbolic 128-bit durations (exact order statistics, no panic, no NaN incl. zero samples) and, with distinct per-sample tallies in a symbolic "
               "order, that allocation figures are those of the samples that supplied the time; a shim holding the storing part of bench_loop_threaded shows a "
               "sample's allocation figures go under the index of its own timing (none for a sample without allocator calls, present for one that only deallocated)."),
